@@ -150,8 +150,34 @@ impl<'ast> Visit<'ast> for BodyWalker {
         visit::visit_expr_await(self, e);
     }
     fn visit_expr_for_loop(&mut self, e: &'ast syn::ExprForLoop) {
+        // guard-continue statements at the top level of the body: `if C { continue; }` (no else, nothing else in the block)
+        let mut guards: Vec<Value> = vec![];
+        for st in e.body.stmts.iter() {
+            if let syn::Stmt::Expr(syn::Expr::If(ifx), _) = st {
+                if ifx.else_branch.is_none() && ifx.then_branch.stmts.len() == 1 {
+                    if let syn::Stmt::Expr(syn::Expr::Continue(c), _) = &ifx.then_branch.stmts[0] {
+                        if c.label.is_none() {
+                            guards.push(json!({"stmt": rng(st.span()), "cond": rng(ifx.cond.span())}));
+                        }
+                    }
+                }
+            }
+        }
+        // every `continue` that targets this loop (not inside a nested loop or closure)
+        struct CC(usize);
+        impl<'a> Visit<'a> for CC {
+            fn visit_expr_continue(&mut self, _c: &'a syn::ExprContinue) { self.0 += 1; }
+            fn visit_expr_for_loop(&mut self, _e: &'a syn::ExprForLoop) {}
+            fn visit_expr_while(&mut self, _e: &'a syn::ExprWhile) {}
+            fn visit_expr_loop(&mut self, _e: &'a syn::ExprLoop) {}
+            fn visit_expr_closure(&mut self, _e: &'a syn::ExprClosure) {}
+        }
+        let mut cc = CC(0);
+        cc.visit_block(&e.body);
         self.loops.push(json!({
             "kind": "for",
+            "guard_continues": guards,
+            "continues": cc.0,
             "kw": start(e.for_token.span()),
             "label": e.label.as_ref().map(|l| l.name.ident.to_string()),
             "pat": rng(e.pat.span()),
